@@ -106,6 +106,9 @@ func pass(p *int) *int          { return p }
 func two(p *int) (*int, error)  { return p, nil }
 func twoI(t *T) (I, *T)         { return t, t }
 func mkS(p *int) S              { return S{p: p} }
+func idS(s S) S                 { return s }
+func idA(a [2]*int) [2]*int     { return a }
+func idAI(a [2]I) [2]I          { return a }
 func id[X any](x X) X           { return x }
 func first[X any](x, y X) X     { return x }
 func idI[X I](x X) I            { return x }
@@ -222,17 +225,17 @@ func dirSources() []dsrc {
 	add("IndexAddr+Load", "sm[0]", "map[int]*int", P("sm []map[int]*int"), nil, "sm[0]")
 	add("IndexAddr+Load", "garr[1]", "*int", nil, nil, "garr[1]")
 	// --- Field / Index (values that are not addressable) -----------------------------------------------
-	add("Field", "sv.p", "*int", P("sv S"), nil, "sv.p")
-	add("Field", "sv.t", "*T", P("sv S"), nil, "sv.t")
-	add("Field", "sv.i", "I", P("sv S"), nil, "sv.i")
-	add("Field", "sv.e", "error", P("sv S"), nil, "sv.e")
-	add("Field", "sv.a", "any", P("sv S"), nil, "sv.a")
-	add("Field", "sv.m", "map[int]*int", P("sv S"), nil, "sv.m")
-	add("Field", "sv.s", "[]*int", P("sv S"), nil, "sv.s")
+	for _, f := range [][2]string{{"p", "*int"}, {"t", "*T"}, {"i", "I"}, {"e", "error"}, {"a", "any"}, {"m", "map[int]*int"}, {"s", "[]*int"}} {
+		add("Field", "idS(sv)."+f[0], f[1], P("sv S"), nil, "idS(sv)."+f[0])
+	}
 	add("Field", "mkS(p).p", "*int", P("p *int"), nil, "mkS(p).p")
-	add("Index", "av[0]", "*int", P("av [2]*int"), nil, "av[0]")
-	add("Index", "av[n]", "*int", P("av [2]*int", "n int"), nil, "av[n]")
-	add("Index", "avi[1]", "I", P("avi [2]I"), nil, "avi[1]")
+	add("Index", "idA(av)[0]", "*int", P("av [2]*int"), nil, "idA(av)[0]")
+	add("Index", "idA(av)[n]", "*int", P("av [2]*int", "n int"), nil, "idA(av)[n]")
+	add("Index", "idAI(avi)[1]", "I", P("avi [2]I"), nil, "idAI(avi)[1]")
+	// struct / array parameters are spilled to an Alloc by the builder: FieldAddr / IndexAddr + Load
+	add("FieldAddr+Load", "sv.p (param copy)", "*int", P("sv S"), nil, "sv.p")
+	add("FieldAddr+Load", "sv.i (param copy)", "I", P("sv S"), nil, "sv.i")
+	add("IndexAddr+Load", "av[n] (param copy)", "*int", P("av [2]*int", "n int"), nil, "av[n]")
 	// --- MapLookup, plain ------------------------------------------------------------------------------
 	add("MapLookup", "m[k]", "*int", P("m map[int]*int", "k int"), nil, "m[k]")
 	add("MapLookup", "ms[k]", "*T", P("ms map[string]*T", "k string"), nil, "ms[k]")
